@@ -147,7 +147,7 @@ Step(r) ==
                                     /\ peer'[r.a.p].proved # peer[r.a.p].proved
                                     /\ ~IsAnc(world, peer[r.a.p].proved, peer'[r.a.p].proved))
                                       => pf'[r.a.p].latest[2] = <<>>
-                                /\ UNCHANGED <<startOf, cpFinal, subst>>
+                                /\ UNCHANGED <<startOf, cpFinal>> /\ subst' = subst \cup SpanKept
                                 /\ CommitEffects(r.st.peer[r.a.p].pReorg, r.st.peer[r.a.p].pLastN,
                                                  r.st.tip # tip \/ r.st.tipTD # tipTD)
                                 /\ (over' # over => PrintT(<<"KNOWN-FINDING", "KF-C09-rollback-number", over'>>))
